@@ -51,6 +51,9 @@ def features() -> List[dict]:
         F("listcomp", setup=["sq = [i * i for i in range(4)]"], loop=["mon.write(sq[2])"]),
         F("strlist", setup=['names = ["ab", "cd"]'], loop=["mon.write(names[1])"]),
         F("floatlist", setup=["fl = [1.5, 2.5]"], loop=["mon.write(fl[0] + 1)"]),
+        F("floatlist_append", setup=["fla = [1.5, 2.5]", "fla.append(3.5)"], loop=["fla.append(a)", "fla.append(a * 0.5)", "fla.remove(1.5)", "mon.write(fla[-1])"]),
+        F("strlist_append", setup=['sla = ["ab", "cd"]', 'sla.append("q")'], loop=["sla.append(str(a))", 'sla.remove("ab")', "mon.write(sla[-1])"]),
+        F("getter_vars", setup=["gm = DCMotor(56, 57, 58)", "gb = Buzzer(59)"], loop=["gsp = gm.get_speed()", "gmo = gm.get_mode()", "gfr = gb.get_frequency()", "ginv = gm.is_inverted()", "mon.write(gmo)", "mon.write(gsp + gfr)"]),
         F("len_str", setup=['word = "abc"', "wl = str(a)"], loop=["mon.write(len(word) + len(wl))"]),
         F("fstring", loop=['mon.write(f"v={a}:{1.5}:{a + 1}|")']),
         F("strops", setup=['s0 = "x"'], loop=["s0 = s0 + str(a)", "mon.write(s0)", 's1 = "lit" + str(a) + "!"', "mon.write(s1)"]),
@@ -101,6 +104,12 @@ def features() -> List[dict]:
         F("pot_loop", loop_decl=['pl = Potentiometer("A2")'], loop=["mon.write(pl.read())"]),
         F("ultra_loop", loop_decl=["ul = Ultrasonic(54, 55)"], loop=["mon.write(ul.measure_distance())"]),
     ]
+    # f-strings: every kind of first component x what follows it
+    firsts = {"lit": "{'x'}", "cond": "{'ON' if a > 2 else 'OFF'}", "svar": "{word}", "num": "{a}", "flt": "{1.5}", "call": "{tagf(a)}", "text": "t", "concat": "{word + 'z'}", "strcall": "{str(a)}", "bool": "{a > 2}"}
+    follows = {"none": "", "text": " now", "num": "{a}", "str": "{word}", "cond": "{'p' if a > 2 else 'q'}"}
+    for fk, fv in firsts.items():
+        for gk, gv in follows.items():
+            fs.append(F(f"fstr_{fk}_{gk}", defs=["def tagf(v):", '    return "t" + str(v)'] if fk == "call" else [], setup=['word = "abc"'], loop=[f'mon.write(f"{fv}{gv}")', f'fsv = f"{fv}{gv}"', "mon.write(fsv)"]))
     # variables first assigned inside a construct, every construct x value type x phase
     vals = {"int": ("a + 1", "0"), "float": ("a * 0.5", "1.5"), "str": ('"s" + str(a)', '"z"'), "bool": ("a > 2", "False")}
     for typ, (v1, v2) in vals.items():
@@ -139,6 +148,8 @@ def gen_features(tier: str) -> Iterator[dict]:
         if f["defs"]:
             yield {"id": f"F1d:{f['name']}", "space": "F", "src": assemble([f], late_defs=True), "runs": [{"passes": 1, "ar": {"A0": [4], "A1": [5], "A2": [6]}, "pulse": [583]}], "feats": [f["name"]]}
     for f, g in itertools.combinations(fs, 2):
+        if f["name"].startswith("fstr_") and g["name"].startswith("fstr_"):
+            continue  # two f-string forms do not interact: each is paired with every other feature
         if f["defs"] or g["defs"]:
             yield {"id": f"F2d:{f['name']}+{g['name']}", "space": "F", "src": assemble([f, g], late_defs=True), "runs": [{"passes": 1, "ar": {"A0": [4], "A1": [5], "A2": [6]}, "pulse": [583]}], "feats": [f["name"], g["name"]]}
         yield {"id": f"F2:{f['name']}+{g['name']}", "space": "F", "src": assemble([f, g]), "runs": [{"passes": 1, "ar": {"A0": [4], "A1": [5], "A2": [6]}, "pulse": [583]}], "feats": [f["name"], g["name"]]}
@@ -164,6 +175,8 @@ G_BODIES_NUM = {
     "cond": ["if p > 2:", "    return p", "return 0"],
     "list": ["box = [p, p]", "box.append(p)", "return box[2] + len(box)"],
     "minmax": ["return max(p, 2) + min(p, 1) + abs(p)"],
+    "rebind": ["p = p / 4", "return p"],
+    "rebind_aug": ["p += 0.5", "return p * 2"],
 }
 G_BODIES_STR = {
     "len": ["return len(p)"],
